@@ -275,6 +275,24 @@ mod __verif_native_bin {
                     Ok(Ok(b)) => { check(mask(observe(&b), w) == mask(observe_model(w), w), "C01.parser_recovers_content_of_conforming_file", || show(&hex(&canon))); }
                     _ => { check(false, "C01.parser_accepts_conforming_file", || show(&hex(&canon))); }
                 }
+                // ... "whatever the order of its pointer and label tables": every permutation of the label table is a conforming
+                // file with the same content; the entries of one cell need not be adjacent (round-5 seed C01-7: a parser that
+                // stores each RUN of equal addresses as one bucket loses the earlier run)
+                let (d, p, l) = (rd32(&canon, 4, w.big), rd32(&canon, 8, w.big), rd32(&canon, 12, w.big));
+                let lt = 0x20 + d + p * 4;
+                if l >= 2 && lt + 8 * l <= canon.len() {
+                    let mut orders: Vec<Vec<usize>> = vec![(0..l).rev().collect(), (1..l).chain(0..1).collect()];
+                    if l >= 3 { let mut o: Vec<usize> = (0..l).collect(); o.swap(1, l - 1); orders.push(o); let mut o: Vec<usize> = (0..l).collect(); o.swap(0, 1); o.swap(1, 2); orders.push(o); }
+                    let sorted_labels = |mut o: Obs| -> Obs { for v in o.labels.values_mut() { v.sort(); } o };
+                    for order in orders {
+                        let mut img = canon.clone();
+                        for (k, src) in order.iter().enumerate() { let e = canon[lt + 8 * src..lt + 8 * src + 8].to_vec(); img[lt + 8 * k..lt + 8 * k + 8].copy_from_slice(&e); }
+                        match no_panic(|| BinArchive::from_bytes(&img, if w.big { Endian::Big } else { Endian::Little })) {
+                            Ok(Ok(b)) => { check(sorted_labels(mask(observe(&b), w)) == sorted_labels(mask(observe_model(w), w)), "C01.parser_recovers_content_whatever_the_order_of_the_label_table", || show(&format!("label table order {:?} of {}", order, hex(&canon)))); }
+                            _ => { check(false, "C01.parser_accepts_conforming_file", || show(&format!("label table order {:?} of {}", order, hex(&canon)))); }
+                        }
+                    }
+                }
             }
             // ---------------- C03: one operation, and two in a row on a thinner set
             for (oi, op) in os.iter().enumerate() {
